@@ -14,8 +14,9 @@ def entries(dump, db="t"):
 
 class C02(Spec):
     pid = "C02"
-    lean_module = "NunVerif.Props.C02"
-    theorems = ["Nun.C02_cas_rule", "Nun.C02_cas_absent", "Nun.C02_plain_write", "Nun.C02_cas_cases", "Nun.C02_version_monotone"]
+    lean_module = "NunVerif.Props.C02Atomic"
+    theorems = ["Nun.C02_cas_rule", "Nun.C02_cas_absent", "Nun.C02_plain_write", "Nun.C02_cas_cases", "Nun.C02_version_monotone",
+                "Nun.C02_set_value_is_one_critical_section", "Nun.C02_inc_value_is_one_critical_section", "Nun.C02_remove_value_is_one_critical_section"]
     rule = ("sequential: exhaustive sequences over {set, set-safe v in {0..4}, increment, get-safe, remove, snapshot} on 1-2 keys of a strategy-none "
             "database, two sessions; seeded random longer sequences; versions relative to the current one are covered because every absolute version 0..4 "
             "is tried at every reachable current version 0..4. non-trivial = at least one accepted and one refused versioned write; distinct by trace hash")
